@@ -702,6 +702,38 @@ pub fn gen(out: &mut Out, thorough: bool, focus: &str) {
             l(format!("serde de {} {} {}", show_dty(&ty2), show_value(&v), num_table(&v)), out);
         }
     }
+    // strings, keys, field and variant names, sequences of EVERY length 0..=40 (inline/heap switches,
+    // chunked copies, small-size fast paths of either direction), ending in a 1-, 2- or 4-byte character
+    {
+        let mut n = 0u64;
+        for len in 0..=40usize {
+            for tail in ["", "é", "😀"] {
+                let st = format!("{}{}", "k".repeat(len), tail);
+                let mut cases: Vec<(DTy, SD)> = vec![
+                    (DTy::Map(Box::new(DTy::Str), Box::new(DTy::Str)), SD::Map(vec![(SD::Str(st.clone()), SD::Str(st.clone())), (SD::Str(format!("{}2", st)), SD::Str(String::new()))])),
+                    (DTy::Struct(vec![(st.clone(), DTy::Str), (format!("{}_", st), DTy::Opt(Box::new(DTy::Bool)))]), SD::Struct(vec![(st.clone(), SD::Str(st.clone())), (format!("{}_", st), SD::None)])),
+                    (DTy::Enum(vec![(st.clone(), DTy::Unit), (format!("{}x", st), DTy::Newtype(Box::new(DTy::Str)))]), SD::NewtypeVariant(format!("{}x", st), Box::new(SD::Str(st.clone())))),
+                    (DTy::Enum(vec![(st.clone(), DTy::Unit), (format!("{}x", st), DTy::Newtype(Box::new(DTy::Str)))]), SD::UnitVariant(st.clone())),
+                ];
+                if tail.is_empty() {
+                    cases.push((DTy::Seq(Box::new(DTy::Int(IntW::U8))), SD::Seq((0..len).map(|i| SD::U(i as u64 * 6)).collect())));
+                    cases.push((DTy::Seq(Box::new(DTy::Opt(Box::new(DTy::Str)))), SD::Seq((0..len).map(|i| if i % 3 == 0 { SD::None } else { SD::Some(Box::new(SD::Str("v".repeat(i)))) }).collect())));
+                    if (1..=18).contains(&len) {
+                        let k: i64 = "1234567890123456789"[..len].parse().unwrap_or(1);
+                        cases.push((DTy::Map(Box::new(DTy::Int(IntW::I64)), Box::new(DTy::Bool)), SD::Map(vec![(SD::I(-k), SD::Bool(true)), (SD::I(k), SD::Bool(false))])));
+                    }
+                }
+                for (ty, d) in cases {
+                    if let Ok(v) = json_syntax::to_value(&d) {
+                        l(format!("serde rt {} {} {}", show_dty(&ty), show_sd(&d), num_table(&v)), out);
+                        n += 1;
+                    }
+                }
+            }
+        }
+        out.count_n("every_length_strings_names_seqs", n);
+        out.exhaustive.push("strings / map keys / field names / variant names of every length 0..=40 (+ a 1-, 2-, 4-byte last character), sequences of every length 0..=40, integer keys of every digit count 1..=18, through the round trip".into());
+    }
     // every leaf type against every kind of value
     let leaves = ["b", "I1", "I2", "I4", "I8", "U1", "U2", "U4", "U8", "f4", "f8", "c", "s", "n", "N", "ob", "oI1", "wb", "wU1", "qb", "t[bb]", "T[bb]", "t[]", "msb", "mI1b", "mU8b", "mcb", "me[61;n62;n]b", "mwsb", "r[]", "r[61;b]", "r[61;ob62;I1]", "e[61;n]", "e[61;wb62;t[bb]63;r[78;b]64;n]"];
     let values = ["n", "t", "#30;", "#2d.31;", "#32.35.35;", "#32.35.36;", "#2d.31.32.38;", "#2d.31.32.39;", "#31.2e.35;", "#31.65.32;", "#2d.30;", "#31.38.34.34.36.37.34.34.30.37.33.37.30.39.35.35.31.36.31.35;", "#31.38.34.34.36.37.34.34.30.37.33.37.30.39.35.35.31.36.31.36;", "#2d.39.32.32.33.33.37.32.30.33.36.38.35.34.37.37.35.38.30.38;", "#2d.39.32.32.33.33.37.32.30.33.36.38.35.34.37.37.35.38.30.39;", "#31.65.34.30.30;",
